@@ -110,11 +110,11 @@ func accept(c mcase) bool {
 
 func buildStep(c mcase) *pipeline.CommandStep {
 	step := &pipeline.CommandStep{
-		Label:   "label",
-		Key:     "k",
-		Command: "run",
-		Env:     map[string]string{"V": "v"},
-		Plugins: pipeline.Plugins{{Source: "docker#v1", Config: map[string]any{"image": "img"}}},
+		Label:           "label",
+		Key:             "k",
+		Command:         "run",
+		Env:             map[string]string{"V": "v"},
+		Plugins:         pipeline.Plugins{{Source: "docker#v1", Config: map[string]any{"image": "img"}}},
 		RemainingFields: map[string]any{"agents": map[string]any{"queue": "q"}},
 	}
 	// tokens only for the permutation's dimensions that also exist in the setup, so a C12-style
